@@ -793,6 +793,260 @@ func (c *c02ctx) tagParsing(fn *ast.FuncDecl) {
 		c02bytes(key), key, c02bytes(skip), skip, c02bytes(sep), sep, c02bytes(nameKey), nameKey, c02bytes(legacyKey), c02bytes(legacyVal), legacyKey, legacyVal, strings.Join(opts, ";\n  "))
 }
 
+
+// ---------------------------------------------------------------- layer 3: structured step lists (phase 5)
+
+func (c *c02ctx) seqTxt(list []ast.Stmt) []string {
+	var r []string
+	for _, s := range list {
+		r = append(r, c.txt(s))
+	}
+	return r
+}
+
+// Encode: nil refused, getTagType, header by format, error returned, marshal
+func (c *c02ctx) encodeSteps(fn *ast.FuncDecl) {
+	b := fn.Body.List
+	if len(b) != 5 {
+		c.fail(fn, "Encode: expected 5 statements")
+	}
+	var out []string
+	if !strings.HasPrefix(c.txt(b[0]), "if v == nil { return ") {
+		c.fail(b[0], "Encode: expected the nil test")
+	}
+	out = append(out, "ENilErr")
+	if c.txt(b[1]) != "t, val := getTagType(reflect.ValueOf(v))" {
+		c.fail(b[1], "Encode: expected getTagType")
+	}
+	out = append(out, "EGetTag")
+	is, ok := b[2].(*ast.IfStmt)
+	if !ok || c.txt(is.Cond) != "e.networkFormat" {
+		c.fail(b[2], "Encode: expected `if e.networkFormat`")
+	}
+	hdr := func(l []ast.Stmt) string {
+		if len(l) != 1 {
+			c.fail(is, "Encode: header branch of an unknown shape")
+		}
+		switch c.txt(l[0]) {
+		case "_, err = e.w.Write([]byte{t})":
+			return "HTagByte"
+		case "err = writeTag(e.w, t, tagName)":
+			return "HWriteTag"
+		}
+		c.fail(l[0], "Encode: header write of an unknown shape")
+		return ""
+	}
+	els, ok := is.Else.(*ast.BlockStmt)
+	if !ok {
+		c.fail(is, "Encode: expected an else branch")
+	}
+	out = append(out, fmt.Sprintf("EHeader %s %s", hdr(is.Body.List), hdr(els.List)))
+	if c.txt(b[3]) != "if err != nil { return err }" {
+		c.fail(b[3], "Encode: expected the error return")
+	}
+	out = append(out, "EErrRet")
+	if c.txt(b[4]) != "return e.marshal(val, t)" {
+		c.fail(b[4], "Encode: expected return e.marshal(val, t)")
+	}
+	out = append(out, "EMarshal")
+	fmt.Fprintf(&c.out, "(* Encode: the statements, in order; EHeader <network format> <file format> *)\nDefinition c02_encode_steps : list estep := [%s].\n\n", strings.Join(out, "; "))
+}
+
+// getTagType: the unwrapping loop and the statements after it
+func (c *c02ctx) loopSteps(fn *ast.FuncDecl) {
+	b := fn.Body.List
+	loop, ok := b[0].(*ast.ForStmt)
+	if !ok || loop.Cond != nil || loop.Init != nil {
+		c.fail(fn, "getTagType: expected `for {` first")
+	}
+	ask := "if v.Type().NumMethod() > 0 && v.CanInterface() { i := v.Interface() if u, ok := i.(Marshaler); ok { return u.TagType(), v } else if _, ok := i.(encoding.TextMarshaler); ok { return TagString, v } }"
+	var in []string
+	for _, s := range loop.Body.List {
+		switch t := c.txt(s); {
+		case t == "if v.Kind() == reflect.Interface && !v.IsNil() { v = v.Elem() continue }":
+			in = append(in, "LIfaceElem")
+		case t == "if v.Kind() != reflect.Ptr { break }":
+			in = append(in, "LNonPtrBreak")
+		case t == "if v.Elem().Kind() == reflect.Interface && v.Elem().Elem() == v { v = v.Elem() break }":
+			in = append(in, "LSelfRefBreak")
+		case t == "if v.IsNil() { v = reflect.New(v.Type().Elem()) }":
+			in = append(in, "LNilNew")
+		case t == ask:
+			in = append(in, "LAskIfaces")
+		case t == "v = v.Elem()":
+			in = append(in, "LDeref")
+		default:
+			c.fail(s, "getTagType loop: statement of an unknown shape: %s", t)
+		}
+	}
+	var post []string
+	for _, s := range b[1:] {
+		switch t := c.txt(s); {
+		case t == ask:
+			post = append(post, "PAskIfaces")
+		case strings.HasPrefix(t, "if v.Kind() == reflect.Struct && v.CanInterface() && reflect.PointerTo(v.Type()).Implements(marshalerType) {"):
+			post = append(post, "PPtrMarshaler")
+		case strings.HasPrefix(t, "switch v.Kind() {"):
+			post = append(post, "PKindSwitch")
+		default:
+			c.fail(s, "getTagType: statement of an unknown shape after the loop: %s", t)
+		}
+	}
+	fmt.Fprintf(&c.out, "(* getTagType: the statements of the unwrapping loop, and those after it, in order *)\nDefinition c02_loop_steps : list lstep := [%s].\nDefinition c02_post_steps : list pstep := [%s].\n\n", strings.Join(in, "; "), strings.Join(post, "; "))
+}
+
+// writeValue: the list, typed-array, string and map clauses, writeListHeader
+func (c *c02ctx) writeSteps(fn, lh *ast.FuncDecl) {
+	sw := fn.Body.List[0].(*ast.SwitchStmt)
+	for _, cc := range c.clauses(sw) {
+		if cc.List == nil {
+			continue
+		}
+		switch c.txt(cc.List[0]) {
+		case "TagList":
+			t := c.seqTxt(cc.Body)
+			if len(t) != 4 || t[0] != "var eleType byte" ||
+				t[1] != "if val.Len() > 0 { eleType, _ = getTagType(val.Index(0)) } else { eleType = getTagTypeByType(val.Type().Elem()) }" ||
+				t[2] != "if err := e.writeListHeader(eleType, val.Len()); err != nil { return err }" {
+				c.fail(cc, "writeValue TagList: opening of an unknown shape")
+			}
+			loop, ok := cc.Body[3].(*ast.ForStmt)
+			if !ok || c.txt(loop.Cond) != "i < val.Len()" {
+				c.fail(cc.Body[3], "writeValue TagList: expected the element loop")
+			}
+			var in []string
+			for _, s := range loop.Body.List {
+				switch x := c.txt(s); {
+				case x == "arrType, arrVal := getTagType(val.Index(i))":
+					in = append(in, "WElemTag")
+				case strings.HasPrefix(x, "if arrType != eleType { return "):
+					in = append(in, "WMixedErr")
+				case x == "err := e.marshal(arrVal, arrType)":
+					in = append(in, "WMarshalElem")
+				case x == "if err != nil { return err }":
+				default:
+					c.fail(s, "writeValue TagList: loop statement of an unknown shape: %s", x)
+				}
+			}
+			fmt.Fprintf(&c.out, "(* writeValue, TagList *)\nDefinition c02_list_steps : list wstep := [WElemTypeFirstOrType; WListHeader; WLoop [%s]].\n", strings.Join(in, "; "))
+		case "TagByteArray":
+			t := c.seqTxt(cc.Body)
+			if len(t) != 3 || t[0] != "n := val.Len()" || t[1] != "if err := writeInt32(e.w, int32(n)); err != nil { return err }" || !strings.HasPrefix(t[2], "if tagType == TagByteArray {") {
+				c.fail(cc, "writeValue typed arrays: opening of an unknown shape")
+			}
+			fmt.Fprintf(&c.out, "(* writeValue, TagByteArray / TagIntArray / TagLongArray: the length, then the elements *)\nDefinition c02_array_steps : list wstep := [WLen; WLen32; WElems].\n")
+		case "TagString":
+			n := len(cc.Body)
+			t := c.seqTxt(cc.Body)
+			if n != 6 || t[0] != "var str []byte" || !strings.HasPrefix(t[1], "if val.NumMethod() > 0 && val.CanInterface() {") || !strings.HasSuffix(t[1], "} else { str = []byte(val.String()) }") ||
+				!strings.HasPrefix(t[2], "if len(str) > math.MaxInt16 { return ") || t[3] != "if err := writeInt16(e.w, int16(len(str))); err != nil { return err }" ||
+				t[4] != "_, err := e.w.Write(str)" || t[5] != "return err" {
+				c.fail(cc, "writeValue TagString: statements of an unknown shape")
+			}
+			fmt.Fprintf(&c.out, "(* writeValue, TagString *)\nDefinition c02_string_steps : list wstep := [WStrBytes; WStrLimit c02_str_max; WLen16; WStrData].\n")
+		case "TagCompound":
+			n := len(cc.Body)
+			if n < 2 || c.txt(cc.Body[n-2]) != "_, err := e.w.Write([]byte{TagEnd})" || c.txt(cc.Body[n-1]) != "return err" {
+				c.fail(cc, "writeValue TagCompound: expected the TagEnd byte last")
+			}
+			var ks *ast.SwitchStmt
+			for _, s := range cc.Body {
+				if x, ok := s.(*ast.SwitchStmt); ok && c.txt(x.Tag) == "val.Kind()" {
+					ks = x
+				}
+			}
+			var body []ast.Stmt
+			for _, kc := range c.clauses(ks) {
+				if kc.List != nil && c.txt(kc.List[0]) == "reflect.Map" {
+					body = kc.Body
+				}
+			}
+			if len(body) != 2 || c.txt(body[0]) != "r := val.MapRange()" {
+				c.fail(ks, "writeValue map: expected r := val.MapRange(); for r.Next()")
+			}
+			loop, ok := body[1].(*ast.ForStmt)
+			if !ok || c.txt(loop.Cond) != "r.Next()" {
+				c.fail(body[1], "writeValue map: expected for r.Next()")
+			}
+			var in []string
+			for _, s := range loop.Body.List {
+				switch x := c.txt(s); {
+				case x == "var tagName string":
+				case x == "if tn, ok := r.Key().Interface().(fmt.Stringer); ok { tagName = tn.String() } else { tagName = r.Key().String() }":
+					in = append(in, "WKeyName")
+				case x == "tagType, tagValue := getTagType(r.Value())":
+					in = append(in, "WValTag")
+				case strings.HasPrefix(x, "if tagType == TagEnd { return "):
+					in = append(in, "WEndErr nbt_TagEnd")
+				case x == "if err := writeTag(e.w, tagType, tagName); err != nil { return err }":
+					in = append(in, "WWriteTag")
+				case x == "if err := e.marshal(tagValue, tagType); err != nil { return err }":
+					in = append(in, "WMarshalVal")
+				default:
+					c.fail(s, "writeValue map: loop statement of an unknown shape: %s", x)
+				}
+			}
+			fmt.Fprintf(&c.out, "(* writeValue, TagCompound of a map: the entry loop, then the TagEnd byte *)\nDefinition c02_map_steps : list wstep := [WLoop [%s]; WEndByte nbt_TagEnd].\n", strings.Join(in, "; "))
+		}
+	}
+	t := c.seqTxt(lh.Body.List)
+	if len(t) != 3 || t[0] != "if _, err = e.w.Write([]byte{elementType}); err != nil { return }" || t[1] != "if err = writeInt32(e.w, int32(n)); err != nil { return }" || t[2] != "return nil" {
+		c.fail(lh, "writeListHeader: statements of an unknown shape")
+	}
+	fmt.Fprintf(&c.out, "(* writeListHeader *)\nDefinition c02_listheader_steps : list wstep := [WLHElemByte; WLen32].\n\n")
+}
+
+// typeFields: the sort order, byIndex.Less, dominantField
+func (c *c02ctx) orderSteps(tf, less, dom *ast.FuncDecl) {
+	var lit *ast.FuncLit
+	ast.Inspect(tf.Body, func(nd ast.Node) bool {
+		call, ok := nd.(*ast.CallExpr)
+		if ok && c.txt(call.Fun) == "sort.Slice" && len(call.Args) == 2 {
+			lit, _ = call.Args[1].(*ast.FuncLit)
+		}
+		return true
+	})
+	if lit == nil {
+		c.fail(tf, "typeFields: sort.Slice(fields, func..) not found")
+	}
+	var keys []string
+	for _, s := range lit.Body.List {
+		switch x := c.txt(s); x {
+		case "x := fields":
+		case "if x[i].name != x[j].name { return x[i].name < x[j].name }":
+			keys = append(keys, "SKName")
+		case "if len(x[i].index) != len(x[j].index) { return len(x[i].index) < len(x[j].index) }":
+			keys = append(keys, "SKDepth")
+		case "if x[i].tag != x[j].tag { return x[i].tag }":
+			keys = append(keys, "SKTagged")
+		case "return byIndex(x).Less(i, j)":
+			keys = append(keys, "SKIndex")
+		default:
+			c.fail(s, "typeFields sort: comparison of an unknown shape: %s", x)
+		}
+	}
+	// the final order of the table
+	final := false
+	ast.Inspect(tf.Body, func(nd ast.Node) bool {
+		if call, ok := nd.(*ast.CallExpr); ok && c.txt(call) == "sort.Sort(byIndex(fields))" {
+			final = true
+		}
+		return true
+	})
+	if !final {
+		c.fail(tf, "typeFields: final sort.Sort(byIndex(fields)) not found")
+	}
+	lb := c.seqTxt(less.Body.List)
+	if len(lb) != 2 || lb[0] != "for k, xik := range x[i].index { if k >= len(x[j].index) { return false } if xik != x[j].index[k] { return xik < x[j].index[k] } }" || lb[1] != "return len(x[i].index) < len(x[j].index)" {
+		c.fail(less, "byIndex.Less: body of an unknown shape")
+	}
+	db := c.seqTxt(dom.Body.List)
+	if len(db) != 2 || db[0] != "if len(fields) > 1 && len(fields[0].index) == len(fields[1].index) && fields[0].tag == fields[1].tag { return field{}, false }" || db[1] != "return fields[0], true" {
+		c.fail(dom, "dominantField: body of an unknown shape")
+	}
+	fmt.Fprintf(&c.out, "(* typeFields: the keys of the sort, in order; byIndex.Less; dominantField; the final order is byIndex *)\nDefinition c02_sort_keys : list skey := [%s].\nDefinition c02_index_less : list istep := [IShorterFalse; IDiffLt; IEndLenLt].\nDefinition c02_dominant : list dcond * dres * dres := ([DLenGt1; DDepthEq; DTagEq], DNone, DFirst).\nDefinition c02_final_order : skey := SKIndex.\n\n", strings.Join(keys, "; "))
+}
+
 // ---------------------------------------------------------------- driver
 
 func genC02(repo string) (out string, err error) {
@@ -840,6 +1094,10 @@ func genC02(repo string) (out string, err error) {
 	c.writeValueFn(get("Encoder.writeValue"))
 	c.emptyTable(get("isEmptyValue"))
 	c.tagParsing(get("typeFields"))
+	c.encodeSteps(get("Encoder.Encode"))
+	c.loopSteps(get("getTagType"))
+	c.writeSteps(get("Encoder.writeValue"), get("Encoder.writeListHeader"))
+	c.orderSteps(get("typeFields"), get("byIndex.Less"), get("dominantField"))
 	for _, n := range []string{"Encoder.Encode", "Encoder.marshal", "Encoder.writeValue", "intOf", "getTagType", "getTagTypeByType",
 		"writeTag", "Encoder.writeListHeader", "writeInt16", "writeInt32", "writeInt64", "isEmptyValue", "typeFields", "dominantField", "byIndex.Less"} {
 		fd := get(n)
